@@ -45,6 +45,7 @@ SPEC = dict(
         ("STEPD", "_update", "value"): BOOL,  # the error stream: 0/1 (False/True)
         ("GaussianUnknownMean", "log_pred_prob", "idx"): INT, ("GaussianUnknownMean", "log_pred_prob", "value"): NUM,
         ("GaussianUnknownMean", "update", "value"): NUM,
+        ("Bucket", "insert_data", "value"): NUM, ("Bucket", "insert_data", "variance"): NUM,
     },
     # calls on these attributes are uninterpreted functions (section variables of the generated file)
     oracles={("STEPD", "_distribution", "sf"): "norm_sf"},
@@ -112,6 +113,7 @@ UNITS = [
     ("STEPD", "_update"), ("STEPD", "reset"),
     ("KSWIN", "_update"), ("KSWIN", "reset"),
     ("GaussianUnknownMean", "update"), ("BOCD", "_update"), ("BOCD", "reset"),
+    ("Bucket", "__init__"), ("Bucket", "reset"), ("Bucket", "insert_data"), ("Bucket", "compress"), ("Bucket", "remove"),
     ("HDDMA1", "_update"), ("HDDMA1", "reset"), ("HDDMA2", "_update"), ("HDDMA2", "reset"),
     ("HDDMW1", "_update"), ("HDDMW1", "reset"), ("HDDMW2", "_update"), ("HDDMW2", "reset"),
 ]
@@ -126,6 +128,7 @@ EQ = {
     "C02": _HIST,  # reset() = where a fresh history starts, over the generated code
     "C03": ["EqStats.v", "EqSPC.v", "EqRDDM.v"],
     "C04": ["EqStats.v", "EqHDDM.v", "EqHDDMW.v"],
+    "C05": ["EqStats.v", "EqBucket.v"],  # the bucket layer only (ADWIN's own methods are outside the subset)
     "C06": ["EqStats.v", "EqSTEPD.v", "EqKSWIN.v"],
     "C08": ["EqStats.v", "EqBOCD.v"],
 }
